@@ -140,12 +140,34 @@ theorem C12_varint_trim (b : Bytes) (hb : b ≠ []) : trimTC b = specVarint (tcD
 example : specVarint 128 = [0, 128] ∧ specVarint (-129) = [255, 127] ∧ specVarint (-128) = [128] := by
   refine ⟨?_, ?_, ?_⟩ <;> (rw [specVarint]; simp [byteOfNat]; try (rw [specVarint]; simp [byteOfNat]))
 
-/-- FULL STATEMENT (does not hold): a big.Int bound to a bigint / counter column is written in 8 bytes.
-    marshalBigInt calls encBigInt2C, which produces the minimal-length form (D8). -/
-theorem C12_cex_bigint_bigInt :
-    marshalIntColumn .big (.big 5) = .ok (some [5]) ∧ specEnc 4 .bigint (.int 5) = some [0, 0, 0, 0, 0, 0, 0, 5] := by
-  refine ⟨?_, by decide⟩
-  simp [marshalIntColumn, encBigInt2C, natBytes, byteOfNat]
+/-- a big.Int bound to a bigint / counter column (repair of KF-C12-2): for EVERY integer, the 8-byte two's complement
+    encoding of the specification when the number is an int64, an error otherwise — never the minimal-length form -/
+theorem C12_bigint_bigInt_conforms (p : Nat) (v : Int) :
+    marshalScalar .bigint (.big v) = optM (specEnc p .bigint (.int v)) ∧
+    marshalScalar .counter (.big v) = optM (specEnc p .counter (.int v)) := by
+  have key : marshalIntColumn .big (.big v) = optM (if fitsS 8 v = true then some (tcEnc 8 v) else none) := by
+    by_cases h : (-9223372036854775808 ≤ v ∧ v < 9223372036854775808)
+    · have hf : fitsS 8 v = true := by simp [fitsS, leB_iff, ltB_iff]; omega
+      simp [marshalIntColumn, leB, ltB, h.1, h.2, hf, optM, encBigInt_eq]
+    · have hf : fitsS 8 v = false := by
+        cases hf : fitsS 8 v
+        · rfl
+        · simp [fitsS, leB_iff, ltB_iff] at hf; omega
+      have h' : ¬ ((-9223372036854775808 ≤ v) ∧ (v < 9223372036854775808)) := h
+      have : (leB (-9223372036854775808) v && ltB v 9223372036854775808) = false := by
+        simp only [leB, ltB, Bool.and_eq_false_iff, decide_eq_false_iff_not]
+        omega
+      simp [marshalIntColumn, this, hf, optM]
+  exact ⟨by simpa [marshalScalar, specEnc] using key, by simpa [marshalScalar, specEnc] using key⟩
+
+/-- the regression inputs of KF-C12-2: `spec 4 bigint big 5` is 8 bytes; 2^63 is refused -/
+example : marshalScalar .bigint (.big 5) = .ok (some [0, 0, 0, 0, 0, 0, 0, 5]) := by
+  have : encBigInt 5 = [0, 0, 0, 0, 0, 0, 0, 5] := by decide
+  simp [marshalScalar, marshalIntColumn, leB, ltB, this]
+example : marshalScalar .bigint (.big 9223372036854775808) = .err := by
+  simp [marshalScalar, marshalIntColumn, leB, ltB]
+/-- the OLD definition (before the repair) wrote the minimal-length form: regression of the former counterexample -/
+example : encBigInt2C 5 = [5] := by simp [encBigInt2C, natBytes, byteOfNat]
 
 /-! ## decode direction: conformant integer encodings -/
 
@@ -180,35 +202,49 @@ theorem C12_cex_smallint_uint16 :
 
 /-! ## date and timestamp -/
 
-/-- FULL STATEMENT (does not hold): a time.Time / millisecond count bound to a date column is written as
-    2^31 + FLOOR(days since the epoch).  marshalDate divides with Go's truncating `/`: for an instant before 1970
-    that is not a midnight the result is the NEXT day (D5).  Proved part: every other instant whose day is in range. -/
-theorem C12_date_conforms_partial (p : Nat) (ts : Int)
-    (hfloor : ¬ (ts < 0 ∧ ts % 86400000 ≠ 0))
+/-- a millisecond count bound to a date column is written as 2^31 + FLOOR(days since the epoch) — for every int64
+    whose day number is in range, before 1970 as well (repair of KF-C12-4: daysSinceEpoch).
+    What remains excluded is the OPEN finding KF-C12-5 (a day outside [−2^31, 2^31) is not refused, `C12_cex_date_range`). -/
+theorem C12_date_conforms (p : Nat) (ts : Int)
     (hrange : fitsU 4 (ts / 86400000 + 2147483648) = true) :
     marshalScalar .date (.int .int64 false ts) = .ok (specEnc p .date (.int (ts / 86400000))) := by
-  have h := encDateMillis_spec ts hfloor hrange
+  have h := encDateMillis_spec ts hrange
   simp [marshalScalar, specEnc, hrange, h]
 
-theorem C12_date_time_conforms_partial (p : Nat) (sec nsec : Int) (hn : 0 ≤ nsec ∧ nsec < 1000000000)
+/-- the same for a time.Time (not the zero time, milliseconds representable in int64 — open finding KF-C12-9 —, day in
+    range): the day that CONTAINS the instant -/
+theorem C12_date_time_conforms (p : Nat) (sec nsec : Int) (hn : 0 ≤ nsec ∧ nsec < 1000000000)
     (hz : timeIsZero sec nsec = false)
     (h1 : fitsS 8 (sec * 1000) = true) (h2 : fitsS 8 (exactMillis sec nsec) = true)
-    (hfloor : ¬ (exactMillis sec nsec < 0 ∧ exactMillis sec nsec % 86400000 ≠ 0))
     (hrange : fitsU 4 (sec / 86400 + 2147483648) = true) :
     marshalScalar .date (.time sec nsec) = .ok (specEnc p .date (.int (sec / 86400))) := by
   have hd := day_of_millis sec nsec hn
-  have h := encDateMillis_spec (exactMillis sec nsec) hfloor (by rw [hd]; exact hrange)
+  have h := encDateMillis_spec (exactMillis sec nsec) (by rw [hd]; exact hrange)
   rw [hd] at h
   simp [marshalScalar, specEnc, hz, hrange, timeMillis_exact sec nsec h1 h2, h]
 
-/-- the counterexample, kernel-checked, = the replay input `enc 4 date t -43200 0` (1969-12-31T12:00:00Z):
-    gocql writes day 2^31 (1970-01-01), the specification says 2^31 − 1 -/
-theorem C12_cex_date_floor :
-    marshalScalar .date (.time (-43200) 0) = .ok (some [128, 0, 0, 0]) ∧
+/-- the regression input of KF-C12-4, kernel-checked, = `spec 4 date t -43200 0` (1969-12-31T12:00:00Z): day 2^31 − 1 -/
+theorem C12_date_floor_witness :
+    marshalScalar .date (.time (-43200) 0) = .ok (some [127, 255, 255, 255]) ∧
+    marshalScalar .date (.int .int64 false (-1)) = .ok (some [127, 255, 255, 255]) ∧
     specEnc 4 .date (.int ((-43200 : Int) / 86400)) = some [127, 255, 255, 255] := by
+  refine ⟨?_, ?_, by decide⟩
+  · have : encDateMillis (timeMillis (-43200) 0) = [127, 255, 255, 255] := by decide
+    simp [marshalScalar, timeIsZero, zeroTimeSec, this]
+  · have : encDateMillis (-1) = [127, 255, 255, 255] := by decide
+    simp [marshalScalar, this]
+
+/-- the OLD computation (truncating division, before the repair) gave the NEXT day: regression of the former counterexample -/
+example : encInt (toS 32 (goDiv (-43200000) millisInADay + 2147483648)) = [128, 0, 0, 0] := by decide
+
+/-- KF-C12-5 (open): a day number outside the range is not refused, int32(x) wraps: day 2^31 is written as day −2^31.
+    = replay input `enc 4 date i int64 185542587187200000` -/
+theorem C12_cex_date_range :
+    marshalScalar .date (.int .int64 false 185542587187200000) = .ok (some [0, 0, 0, 0]) ∧
+    specEnc 4 .date (.int ((185542587187200000 : Int) / 86400000)) = none := by
   refine ⟨?_, by decide⟩
-  have : encDateMillis (timeMillis (-43200) 0) = [128, 0, 0, 0] := by decide
-  simp [marshalScalar, timeIsZero, zeroTimeSec, this]
+  have : encDateMillis 185542587187200000 = [0, 0, 0, 0] := by decide
+  simp [marshalScalar, this]
 
 /-- timestamp: milliseconds since the epoch (floor), 8 bytes — for every non-zero time.Time that does not overflow -/
 theorem C12_timestamp_conforms_partial (p : Nat) (sec nsec : Int)
@@ -241,18 +277,48 @@ theorem C12_cex_null_element_v2 :
     marshal 2 (.list .int) (.slice false [.nilptr, .ptr (.int .int false 1)]) = .ok (some [0, 2, 0, 0, 0, 4, 0, 0, 0, 1]) ∧
     specEnc 2 (.list .int) (.list [.null, .int 1]) = none := C12Coll.cex_null_element_v2
 
-/-- FULL STATEMENT (does not hold): a nil value inside a tuple is written as −1.  For a []interface{} source only
-    the UNTYPED nil is; a typed nil pointer is marshalled (→ nil) and written with length 0 (D8).
-    = replay input `enc 4 tuple 2 int text ifs 2 nilptr s 41` -/
-theorem C12_cex_tuple_typed_nil :
-    marshal 4 (.tuple [.int, .text]) (.ifaces [.nilptr, .str false [65]]) = .ok (some [0, 0, 0, 0, 0, 0, 0, 1, 65]) ∧
-    marshal 4 (.tuple [.int, .text]) (.ifaces [.nil, .str false [65]]) = .ok (some [255, 255, 255, 255, 0, 0, 0, 1, 65]) ∧
+open C12Coll in
+/-- a Go value bound to a tuple column, every source shape ([]interface{}; struct, slice, array): if every field is
+    marshalled as the specification says (`FieldOK`: an untyped nil of a []interface{} or a nil encoding — typed nil
+    pointer, nil []byte, nil slice, nil map … — exactly for null, else the field's spec bytes, shorter than 2 GiB)
+    then the whole value is the specification's encoding: `[bytes]` per field, −1 for null (repair of KF-C12-6:
+    appendBytes).  Induction step for nesting, like `C12_list_framing`. -/
+theorem C12_tuple_framing (p : Nat) (ts : List CqlTy) (vs : List GoVal) (cs : List CqlVal) (b : Bytes) :
+    (FieldsOK p true ts vs cs → marshal p (.tuple ts) (.ifaces vs) = .ok (some b) →
+      specEnc p (.tuple ts) (.tuple cs) = some b) ∧
+    (FieldsOK p false ts vs cs →
+      (marshal p (.tuple ts) (.struct vs) = .ok (some b) ∨
+       (∃ isNil, marshal p (.tuple ts) (.slice isNil vs) = .ok (some b)) ∨
+       marshal p (.tuple ts) (.array vs) = .ok (some b)) →
+      specEnc p (.tuple ts) (.tuple cs) = some b) :=
+  marshalTuple_spec p ts vs cs b
+
+/-- the field hypothesis is met by every kind of nil: a typed nil pointer, a pointer to a nil pointer, a nil []byte,
+    a nil slice and a nil map all marshal to the nil encoding, which the tuple now writes as −1 -/
+theorem C12_tuple_nil_fields (p : Nat) (vi : Bool) (t : CqlTy) :
+    C12Coll.FieldOK p vi t .nilptr .null ∧ C12Coll.FieldOK p vi t (.ptr .nilptr) .null ∧
+    C12Coll.FieldOK p vi .blob (.bytes false true []) .null ∧
+    C12Coll.FieldOK p vi (.list t) (.slice true []) .null ∧ C12Coll.FieldOK p vi (.map t t) (.map true []) .null := by
+  refine ⟨?_, ?_, ?_, ?_, ?_⟩ <;> refine Or.inr (Or.inl ⟨?_, rfl⟩) <;>
+    simp [marshal, marshalScalar, marshalVarcharColumn]
+
+/-- untyped nil bound to a tuple column is null (repair of KF-C12-7), as for every other column type;
+    = replay input `spec 4 tuple 1 int nil` -/
+theorem C12_tuple_nil_null (p : Nat) (ts : List CqlTy) :
+    marshal p (.tuple ts) .nil = .ok none ∧ interp (.tuple ts) .nil = some .null := by
+  constructor <;> simp [marshal, interp]
+
+/-- the regression inputs of KF-C12-6, kernel-checked: `spec 4 tuple 2 int text ifs 2 nilptr s 41` and the struct
+    shape with a nil []byte -/
+theorem C12_tuple_typed_nil_witness :
+    marshal 4 (.tuple [.int, .text]) (.ifaces [.nilptr, .str false [65]]) = .ok (some [255, 255, 255, 255, 0, 0, 0, 1, 65]) ∧
+    marshal 4 (.tuple [.blob, .text]) (.struct [.bytes false true [], .str false [65]]) = .ok (some [255, 255, 255, 255, 0, 0, 0, 1, 65]) ∧
     specEnc 4 (.tuple [.int, .text]) (.tuple [.null, .bytes [65]]) = some [255, 255, 255, 255, 0, 0, 0, 1, 65] := by
-  have h0 : encInt 0 = [0, 0, 0, 0] := by decide
   have h1 : encInt (toS 32 1) = [0, 0, 0, 1] := by decide
   have hm : encInt (-1) = [255, 255, 255, 255] := by decide
   refine ⟨?_, ?_, by decide⟩ <;>
-    simp [marshal, wrapTuple, marshalTupleIfaces, tupleItem, marshalScalar, marshalVarcharColumn, h0, h1, hm]
+    simp [marshal, wrapTuple, marshalTupleIfaces, marshalTupleFields, GoVal.isNil, GoVal.isNilPtr, appendBytes,
+      marshalScalar, marshalVarcharColumn, h1, hm]
 
 /-! ## duration: three zig-zag vints -/
 
@@ -265,24 +331,24 @@ theorem C12_vint (n : Int) (h : fitsS 8 n = true) :
 theorem fits4_fits8 (m : Int) (h : fitsS 4 m = true) : fitsS 8 m = true := by
   simp [fitsS, leB_iff, ltB_iff] at h ⊢; omega
 
-/-- gocql.Duration, time.Duration and int64 bound to a duration column: months, days, nanoseconds as three vints -/
-theorem C12_duration_conforms (p : Nat) (m d n : Int) (hm : fitsS 4 m = true) (hd : fitsS 4 d = true) (hn : fitsS 8 n = true) :
+/-- gocql.Duration, time.Duration, int64 AND every named int64 type (the reflect.Int64 fallback, repair of KF-C12-3)
+    bound to a duration column: months, days, nanoseconds as three vints -/
+theorem C12_duration_conforms (p : Nat) (m d n : Int) (named : Bool)
+    (hm : fitsS 4 m = true) (hd : fitsS 4 d = true) (hn : fitsS 8 n = true) :
     marshalScalar .duration (.cqldur m d n) = .ok (specEnc p .duration (.duration m d n)) ∧
     marshalScalar .duration (.dur n) = .ok (specEnc p .duration (.duration 0 0 n)) ∧
-    marshalScalar .duration (.int .int64 false n) = .ok (specEnc p .duration (.duration 0 0 n)) := by
+    marshalScalar .duration (.int .int64 named n) = .ok (specEnc p .duration (.duration 0 0 n)) := by
   have h0 : fitsS 4 0 = true := by decide
   have e0 := C12Vint.encVint_spec 0 (by decide)
-  refine ⟨?_, ?_, ?_⟩ <;>
+  refine ⟨?_, ?_, ?_⟩ <;> try cases named <;>
     simp [marshalScalar, specEnc, encVints, hm, hd, hn, h0, e0,
       C12Vint.encVint_spec m (fits4_fits8 m hm), C12Vint.encVint_spec d (fits4_fits8 d hd), C12Vint.encVint_spec n hn]
 
-/-- FULL STATEMENT (does not hold): every int64-kinded Go value bound to duration is written as vints.  A NAMED int64
-    type other than time.Duration takes the reflect.Int64 fallback and is written as 8 raw bytes (D8).
-    = replay input `enc 4 duration ni int64 1` -/
-theorem C12_cex_duration_named_int64 :
-    marshalScalar .duration (.int .int64 true 1) = .ok (some [0, 0, 0, 0, 0, 0, 0, 1]) ∧
+/-- the regression input of KF-C12-3, kernel-checked: `spec 4 duration ni int64 1` is 00 00 02 -/
+example : marshalScalar .duration (.int .int64 true 1) = .ok (some [0, 0, 2]) ∧
     specEnc 4 .duration (.duration 0 0 1) = some [0, 0, 2] := by
-  have : encBigInt 1 = [0, 0, 0, 0, 0, 0, 0, 1] := by decide
-  refine ⟨by simp [marshalScalar, this], by decide⟩
+  have hs : specEnc 4 .duration (.duration 0 0 1) = some [0, 0, 2] := by decide
+  refine ⟨?_, hs⟩
+  rw [(C12_duration_conforms 4 0 0 1 true (by decide) (by decide) (by decide)).2.2, hs]
 
 end C12
